@@ -34,7 +34,8 @@ ASSUMPTIONS = [
 SIZES = [(1, 1), (2, 2), (3, 2), (1, 9), (9, 1), (2, 17)]
 CORE_PATTERNS = ["all_idle", "monitor", "monitor_plus5", "chip_specific",
                  "adjacent_runs", "last_core", "global5_local2",
-                 "everything_busy", "alternate"]
+                 "everything_busy", "alternate", "disjoint", "first_idle",
+                 "last_idle"]
 LINK_PATTERNS = ["all", "none", "asym"] + ["only%d" % i for i in range(6)]
 
 
@@ -62,6 +63,19 @@ def shards(tier):
 
 def core_states(pattern, x, y, n):
     st = [ST_IDLE] * 18
+    if pattern == "disjoint":
+        # no core is busy on every chip
+        st[1 + (x + 2 * y) % 3] = ST_RUN
+        if (x + y) % 2:
+            st[5] = ST_WAIT
+        return st
+    if pattern in ("first_idle", "last_idle"):
+        idle_one = (0, 0) if pattern == "first_idle" else None
+        if (x, y) == idle_one or (pattern == "last_idle" and x + y >= 2):
+            return st
+        for p in (0, 2, 3):
+            st[p] = ST_RUN
+        return st
     if pattern != "all_idle":
         st[0] = ST_RUN
     if pattern == "monitor_plus5":
@@ -465,6 +479,48 @@ def part_status_iobuf(params, tier, acc):
                                       % (len(blocks), blocks, len(io),
                                          len(text)))
         acc.sample(dict(part="status_iobuf", blocks=blocks))
+    # one controller visiting several chips and cores in sequence (system
+    # areas live at different addresses on different chips)
+    sim = make_sim(dict(size=[3, 2]))
+    sim.full_sync = False
+    expect = {}
+    for (x, y), c in sim.chips.items():
+        for p in (1, 2):
+            txt = ("chip%d%d core%d " % (x, y, p)).encode() * (1 + p)
+            a = 0x60400000 + 0x1000 * p
+            c.mem.write(a, struct.pack("<4I", 0, 0, 0, len(txt)) + txt)
+            expect[(x, y, p)] = (a, txt, 100 * x + 10 * y + p)
+    with Session(sim, budget=20000) as s:
+        for (x, y, p), (a, txt, uid) in expect.items():
+            c = sim.chips[(x, y)]
+            c.put_field("vcpu", "iobuf", a, p)
+            c.put_field("vcpu", "app_id", uid & 0xff, p)
+            c.put_field("vcpu", "rt_code", 0, p)
+            c.put_field("vcpu", "cpu_state", ST_RUN, p)
+        for order in (sorted(expect), sorted(expect, reverse=True)):
+            for (x, y, p) in order:
+                a, txt, uid = expect[(x, y, p)]
+                acc.evaluations += 1
+                acc.nontrivial += 1
+                case = dict(size=[3, 2], tour=True)
+                try:
+                    io = s.mc.get_iobuf_bytes(p, x, y)
+                    aid = s.mc.read_vcpu_struct_field("app_id", x, y, p)
+                    ps = s.mc.get_processor_status(p, x, y)
+                except Exception as e:
+                    acc.violation(dict(kind="exception",
+                                       exc=type(e).__name__), case,
+                                  "tour raised %s: %s" % (type(e).__name__, e))
+                    continue
+                if io != txt or aid != (uid & 0xff) or \
+                        ps.app_id != (uid & 0xff) or ps.iobuf_address != a:
+                    acc.violation(dict(kind="tour"), case,
+                                  "visiting chip (%d,%d) core %d after other "
+                                  "chips: console %r, app id %r / %r, "
+                                  "expected %r, %r"
+                                  % (x, y, p, io[:20], aid, ps.app_id,
+                                     txt[:20], uid & 0xff))
+                    break
     # router diagnostics
     sim = make_sim(dict(size=[2, 2]))
     words = [(i * 0x01010101 + 7) & 0xffffffff for i in range(16)]
@@ -527,7 +583,7 @@ def run_shard(params, tier, acc):
 
 
 def replay(case, acc):
-    if "iobuf_blocks" in case or case.get("diag"):
+    if "iobuf_blocks" in case or case.get("diag") or case.get("tour"):
         part_status_iobuf({}, "quick", acc)
     elif "vstring" in case:
         part_eth_version({}, "quick", acc)
